@@ -39,6 +39,8 @@ def compare_trace(tr, model_outs, props):
     res = {p: None for p in props}
     j = 0
     for rec in tr['recs']:
+        if isinstance(rec['out'], dict) and 'crash' in rec['out']:
+            break
         if rec['line'] is None:
             # op not shown to the model (key(), skipped ext ops): the state must not have changed
             a, b = rec['before'], rec['after']
@@ -76,6 +78,14 @@ def monitor_trace(tr):
         op, out, b, a = rec['op'], rec['out'], rec['before'], rec['after']
         kind = op[0]
         tags[kind] += 1
+        if isinstance(out, dict) and 'crash' in out:
+            viol.append(dict(prop='*', i=rec['i'], sig=dict(kind='operation-raised', op=kind),
+                             msg='%r raised %s' % (op, out['crash'])))
+            break
+        if 'error' in a:
+            viol.append(dict(prop='*', i=rec['i'], sig=dict(kind='state-unreadable', op=kind),
+                             msg='after %r the cache/archive cannot be read back: %s' % (op, a['error'])))
+            break
         if isinstance(out, dict) and 'independence' in out:
             viol.append(dict(prop='C20', i=rec['i'], sig=dict(kind='not-independent', what=out['independence']['what']),
                              msg='using the restored copy changed the original (%s)' % out['independence']['what']))
